@@ -292,7 +292,7 @@ class Script(object):
                 # the server stops here: send what fits, close, abandon the rest of the script
                 if room > 0:
                     self.session.send(data[:room])
-                self.session.close()
+                (self.session.reset if getattr(self, 'cut_reset', False) else self.session.close)()
                 self.pc = len(self.steps)
                 self.cut_done = True
                 return
